@@ -51,6 +51,10 @@ def run(ctx):
                         "a hang is a run longer than 8 s"]
     vlib.mc_check(ctx, "FaultProto", "FaultProto.cfg", timeout=120, workers=4, coverage=True)
     vlib.mc_check(ctx, "FaultProto", "FaultProto_negF5.cfg", expect_violation="OkCommitIsComplete", timeout=120, workers=4)
+    if not ctx.quick:
+        # six documents, three faults, pipeline of three, opstamps up to 5 (1,878,520 states, depth 19)
+        vlib.mc_check(ctx, "FaultProto", "FaultProto_deep.cfg", timeout=900, workers=6)
+        vlib.mc_check(ctx, "FaultProto", "FaultProto_deep_negF5.cfg", expect_violation="OkCommitIsComplete", timeout=300, workers=4)
     vlib.mc_check(ctx, "FaultProto", "FaultProto_negF40.cfg", expect_violation="DiskIsSomeCommit", timeout=120, workers=4)
     vlib.mc_check(ctx, "FaultProto", "FaultProto_negS21.cfg", expect_violation="NoStuckProducer", timeout=120, workers=4)
     vlib.mc_check(ctx, "StorageProto", "StorageProto_negF45.cfg", expect_violation="NoSpuriousFailure", timeout=120, workers=2)
